@@ -140,8 +140,10 @@ func (c *corruptor) enc(tr M) M {
 	case "array":
 		el := c.seq(asList(tr["elems"]))
 		if c.class == "arraylen" && c.hit() {
-			if len(el) > 0 && c.rng.Intn(2) == 0 {
+			if len(el) > 0 && c.rng.Intn(3) == 0 {
 				el = el[:len(el)-1]
+			} else if len(el) > 0 && c.rng.Intn(2) == 0 {
+				el = el[:0] // the empty array
 			} else if len(el) > 0 {
 				el = append(el, el[len(el)-1])
 			} else {
